@@ -12,7 +12,7 @@ PROFILE = {
   "C10": dict(cancel=0.0, stop=0.0, tcaps=(50,), nsrc=(1, 4), stall=0.5, long=0.02),
   "C11": dict(cancel=0.9, stop=0.0, tcaps=(50,), nsrc=(2, 4), stall=0.25, race=0.35),
   "C12": dict(cancel=0.2, stop=1.0, tcaps=(50,), nsrc=(1, 3), stall=0.25),
-  "C31": dict(cancel=0.3, stop=0.0, tcaps=(1, 2, 3), nsrc=(3, 6), stall=0.2),
+  "C31": dict(cancel=0.3, stop=0.0, tcaps=(1, 2, 3), nsrc=(3, 6), stall=0.2, race_post=0.5),
 }
 
 
@@ -67,6 +67,15 @@ def gen(rng, P):
     drivers["d2"] = [["wait_started", nm]] + ([["sleep", at]] if at else []) + [["cancels", nm, sig, rng.choice(["same", "rebuilt"])]]
     ops += [["sleep", rng.randint(1, 2)], ["cancels", nm, sig, "same"]]
   ops.append(["sleep", H + 5])
+  if P.get("race_post") and rng.random() < P["race_post"]:
+    # a second thread starts timed sources on the same object while the first one does: the capacity test and the registration of a
+    # source must be one step (two posts that both see the last free slot must not both be accepted - TimerTrace judges each post at its
+    # return against the sources accepted before / possibly accepted by then)
+    nm = rng.choice(names)
+    d3 = [["wait_started", nm]] + ([["sleep", rng.randint(1, 2)]] if rng.random() < 0.4 else [])
+    for q in range(rng.randint(1, 2)):
+      d3.append(["tpost", nm, rng.choice(["fifo", "lifo"]), rng.choice(["A", "B"]), rng.choice([1, 2, 3]), rng.choice([0, 1, 2, 3]), rng.random() < 0.6, 100 + q])
+    drivers["d3"] = d3 + [["sleep", H + 5]]
   return {"cap": 40, "tcap": rng.choice(P["tcaps"]), "aos": aos, "drivers": drivers}
 
 
